@@ -32,6 +32,13 @@ ASSUMPTIONS = [
 MAPPED = [13, 11, 17, 22, 31, 2, 12, 28, 38, 1, 110, 95]
 
 
+ENTRY_ERRNOS = [0, 11, 4, 110, 12, 9999]
+
+
+def body(case):
+    return case.split(" ", 1)[1] if case.startswith("@") else case
+
+
 def _stale(target, sources):
     if not os.path.exists(target):
         return True
@@ -78,6 +85,9 @@ def gen(ctx, seed, tier):
     cases.append("T %d %d %d %s" % (M, 32, 0, "f"))
     for _ in range(40 if thorough else 8):
         cases.append("T %d %d %d %s" % (r.choice(real_sizes), r.randint(1, 16), r.choice([0, 100, 500, 2000]), r.choice("fr")))
+    # errno at entry is a dimension of every kind of case (the result must not depend on a stale errno)
+    cases = [("@%d %s" % (r.choice(ENTRY_ERRNOS), c)) if r.random() < 0.5 else c for c in cases]
+    cases += ["@11 S %d 0 0 0" % M, "@11 S %d 0 0 12" % M, "@11 T %d 2 0 f" % M, "@4 J 0", "@11 T 262144 8 100 r"]
     cases += ["U %d" % s for s in [16384, 16384 + 64, 16384 + 128, 16384 + 64 * 33, 20000, 32768, 65536, 65536 + 64,
                                    100000, 0, 1, 16383]]
     return cases
@@ -92,7 +102,7 @@ def corpus(ctx):
 
 def targeted(ctx):
     return ["S 33554432 0 0 0", "T 33554432 2 0 f", "T 16777216 1 0 f", "S 1048576 0 0 11", "S 1048576 0 0 12", "J 3",
-            "S 1000000 0 0 0", "S 16448 0 0 0", "T 1000000 1 0 f", "U 16448", "S 33554432 0 0 11,0"]
+            "S 1000000 0 0 0", "S 16448 0 0 0", "T 1000000 1 0 f", "U 16448", "S 33554432 0 0 11,0", "@11 S 1048576 0 0 0", "@11 T 1048576 1 0 f"]
 
 
 def run_impl(ctx, cases):
@@ -110,7 +120,7 @@ def run_model(ctx, cases):
 def l1_extra(case, impl_obs):
     if impl_obs.startswith("CRASH"):
         return False
-    t = case.split()
+    t = body(case).split()
     st = impl_obs.split()[0] if impl_obs else ""
     if t[0] == "S":
         rcs = [int(x) for x in t[4].split(",")]
@@ -132,7 +142,7 @@ def l1_extra(case, impl_obs):
 
 
 def nontrivial(c):
-    t = c.split()
+    t = body(c).split()
     if t[0] == "S":
         return t[4] != "0" or int(t[1]) != 8388608
     if t[0] == "J":
@@ -142,11 +152,14 @@ def nontrivial(c):
 
 def stats(cases, impl):
     d = {}
+    n_entry = sum(1 for c in cases if c.startswith("@") and not c.startswith("@0 "))
+    cases = [body(c) for c in cases]
     for c in cases:
         d[c[0]] = d.get(c[0], 0) + 1
     real = [c.split() for c in cases if c.startswith("T ")]
     return {
         "cases_by_kind": d,
+        "cases_with_stale_errno_at_entry": n_entry,
         "scripted_create_failures": sum(1 for c in cases if c.startswith("S ") and c.split()[4] != "0"),
         "scripted_first_create_fails_later_succeeds": sum(1 for c in cases if c.startswith("S ") and "," in c.split()[4]),
         "real_threads_created": sum(int(t[2]) for t in real),
